@@ -34,6 +34,15 @@ if TYPE_CHECKING:
     from _griffe.enumerations import Parser
 
 
+def _source_lines(code: str) -> list[str]:
+    # Lines as Python numbers them: files are read with universal newlines, so only `\n` ends a line
+    # (`str.splitlines` also splits on form feeds and other separators, which are ordinary characters in source code).
+    lines = code.split("\n")
+    if not lines[-1]:
+        lines.pop()
+    return lines
+
+
 class GriffeLoader:
     """The Griffe loader, allowing to load data from modules."""
 
@@ -660,7 +669,7 @@ class GriffeLoader:
     def _visit_module(self, module_name: str, module_path: Path, parent: Module | None = None) -> Module:
         code = module_path.read_text(encoding="utf8")
         if self.store_source:
-            self.lines_collection[module_path] = code.splitlines(keepends=False)
+            self.lines_collection[module_path] = _source_lines(code)
         start = datetime.now(tz=timezone.utc)
         module = visit(
             module_name,
@@ -682,7 +691,7 @@ class GriffeLoader:
             if module_name.startswith(prefix):
                 raise ImportError(f"Ignored module '{module_name}'")
         if self.store_source and filepath and filepath.suffix in {".py", ".pyi"}:
-            self.lines_collection[filepath] = filepath.read_text(encoding="utf8").splitlines(keepends=False)
+            self.lines_collection[filepath] = _source_lines(filepath.read_text(encoding="utf8"))
         start = datetime.now(tz=timezone.utc)
         try:
             module = inspect(
